@@ -110,48 +110,67 @@ int main(int argc, char** argv) {
         Sys S;
         unsigned finalFlags = rnd() & 511;
         Vals fin = symVals("fin_", true, finalFlags);
+        // gravity is set only through setGravityVector (case 21): cases 7/8 (magnitude / direction setters) are exercised
+        // as OLD values only, the final gravity vector is fin.g along the axis fin.gvAxis
+        auto isFinalVar = [](int w) { return w != 7 && w != 8; };
+        auto doRealize = [&](State& st, int stg, std::string& script) {
+            try {
+                if (stg >= (int)Stage::Position) { S.sys.realize(st, Stage::Time); S.sys.prescribeQ(st); }
+                if (stg >= (int)Stage::Velocity) { S.sys.realize(st, Stage::Position); S.sys.prescribeU(st); }
+                S.sys.realize(st, Stage(stg));
+            } catch (const std::exception& e) { script += " (realize threw)"; }
+            script += " realize" + std::to_string(stg);
+        };
         // ---- history
         State h = S.sys.getDefaultState();
         S.sys.realizeModel(h);
         std::string script;
-        for (int step = 0; step < len; ++step) {
-            unsigned op = rnd() % 10;
-            if (op < 6) {            // change one variable to an OLD value
-                int which = rnd() % NVARS;
-                Vals old = symVals("old" + std::to_string(step) + "_", true, rnd() & 511);
-                // a gravity vector of the SAME magnitude as the final one but another direction is a legal old value too
-                if (which == 21 && (rnd() & 1)) { old.gvec = fin.g; if (old.gvAxis == fin.gvAxis) old.gvAxis = (old.gvAxis + 1) & 3; }
-                applyOne(S, h, old, which);
-                script += " set" + std::to_string(which);
-            } else if (op < 9) {     // realize to some stage
-                int st = 2 + rnd() % 6;   // Instance..Acceleration
-                try {
-                    if (st >= (int)Stage::Position) { S.sys.realize(h, Stage::Time); S.sys.prescribeQ(h); }
-                    if (st >= (int)Stage::Velocity) { S.sys.realize(h, Stage::Position); S.sys.prescribeU(h); }
-                    S.sys.realize(h, Stage(st));
-                } catch (const std::exception& e) { script += " (realize threw)"; }
-                script += " realize" + std::to_string(st);
-            } else {                 // query something (forces caches to be filled)
-                try {
-                    S.sys.realize(h, Stage::Time); S.sys.prescribeQ(h); S.sys.realize(h, Stage::Position); S.sys.prescribeU(h);
-                    S.sys.realize(h, Stage::Dynamics);
-                    volatile double sink = symfp::value(S.sys.calcPotentialEnergy(h)) + symfp::value(S.sys.getMobilityForces(h, Stage::Dynamics)[0]);
-                    (void)sink;
-                } catch (const std::exception& e) { script += " (query threw)"; }
-                script += " query";
-            }
-        }
-        // final assignment in a pseudo-random order
+        // 1. checkpoint: every variable gets its final value (random order), then everything is realized
         int order[NVARS];
         for (int i = 0; i < NVARS; ++i) order[i] = i;
         for (int i = NVARS - 1; i > 0; --i) { int j = rnd() % (i + 1); std::swap(order[i], order[j]); }
-        for (int i = 0; i < NVARS; ++i) if (order[i] != 21) applyOne(S, h, fin, order[i]);
+        for (int i = 0; i < NVARS; ++i) if (isFinalVar(order[i])) applyOne(S, h, fin, order[i]);
+        doRealize(h, 4 + rnd() % 4, script);      // Position .. Acceleration
+        // 2. rounds: a few variables go to OLD values (with realizations / queries in between) and come back to the final ones
+        int rounds = 1 + len / 3;
+        for (int r = 0; r < rounds; ++r) {
+            int k = 1 + rnd() % 3;
+            int sel[3];
+            for (int i = 0; i < k; ++i) sel[i] = rnd() % NVARS;
+            Vals old = symVals("old" + std::to_string(r) + "_", true, rnd() & 511);
+            for (int i = 0; i < k; ++i) {
+                Vals o = old;
+                // a gravity vector of the SAME magnitude as the final one but another direction is a legal old value too
+                if (sel[i] == 21 && (rnd() & 1)) { o.gvec = fin.g; if (o.gvAxis == fin.gvAxis) o.gvAxis = (o.gvAxis + 1) & 3; }
+                applyOne(S, h, o, sel[i]);
+                script += " old" + std::to_string(sel[i]);
+                if (rnd() % 3 == 0) doRealize(h, 2 + rnd() % 6, script);
+            }
+            if (rnd() % 2 == 0) {
+                try { S.sys.realize(h, Stage::Time); S.sys.prescribeQ(h); S.sys.realize(h, Stage::Position); S.sys.prescribeU(h);
+                      S.sys.realize(h, Stage::Dynamics);
+                      volatile double sink = symfp::value(S.sys.calcPotentialEnergy(h)) + symfp::value(S.sys.getMobilityForces(h, Stage::Dynamics)[0]); (void)sink;
+                } catch (const std::exception& e) { script += " (query threw)"; }
+                script += " query";
+            }
+            // back to the final values: only the touched variables are written again (7/8 touched gravity: restore through 21)
+            for (int i = k - 1; i >= 0; --i) {
+                int w = sel[i];
+                if (w == 7 || w == 8) w = 21;
+                applyOne(S, h, fin, w);
+                script += " fin" + std::to_string(w);
+                // a lock prescribes (i.e. overwrites) the slider's u when the state is realized: that is a change of a state
+                // VARIABLE made by the history, so the final value of that variable is written again as well
+                if (w == 19) { applyOne(S, h, fin, 5); applyOne(S, h, fin, 2); script += " fin5 fin2"; }
+            }
+            if (rnd() % 2 == 0) doRealize(h, 2 + rnd() % 6, script);
+        }
         symfp::note("script", script);
         emit(S, h, "h_");
-        // ---- fresh state, canonical order
+        // ---- fresh state, canonical order, final values only
         State f = S.sys.getDefaultState();
         S.sys.realizeModel(f);
-        for (int i = 0; i < NVARS; ++i) if (i != 21) applyOne(S, f, fin, i);
+        for (int i = 0; i < NVARS; ++i) if (isFinalVar(i)) applyOne(S, f, fin, i);
         emit(S, f, "f_");
     });
 }
